@@ -7,7 +7,7 @@ import ast
 from pyexpr2lean import (Gen, Tr, Untranslatable, load, get_def, find_assign, find_assigns, find_returns,
                          find_calls, body_to_lean)
 from gen_c10 import (norm, nenv, sub_assigns, for_loops, range_args, index_of, reads_of, tuple_unpack_calls,
-                     returns_in_order, I, N, HDR, snorm, stmt_is, GenT, tri, alpha_norm)
+                     returns_in_order, I, N, HDR, snorm, stmt_is, GenT, tri, alpha_norm, is_rebind, MATERIALISERS, iter_params_fact)
 
 JAC = 'prysm/polynomials/jacobi.py'
 QP = 'prysm/polynomials/qpoly.py'
@@ -195,7 +195,7 @@ def generate(repo):
         row0 = find_calls(fn, 'clenshaw_q2d')
         row0_ok = len(row0) == 1 and norm(ast.unparse(row0[0])) == norm('clenshaw_q2d(cs, m, x, alphas[0])')
         N_ok = norm(ast.unparse(find_assign(fn, 'N'))) == norm('len(cs) - 1') and norm(ast.unparse(find_assign(fn, 'x'))) == 'usq' \
-            and norm(ast.unparse(find_assign(fn, 'cs'))) == 'cns' and all(f[2] == 'm' for f in feed.values()) \
+            and norm(ast.unparse(find_assign(fn, 'cs'))) in ['cns'] + [f'{f}(cns)' for f in MATERIALISERS] and all(f[2] == 'm' for f in feed.values()) \
             and ast.unparse(pre[0][1].args[1]) == 'm'
         ret_ok = norm(ast.unparse(returns_in_order(fn)[-1])) == 'alphas'
         extra = [
@@ -492,7 +492,7 @@ def generate(repo):
         usq_ok = norm(ast.unparse(find_assign(fn, 'usq'))) == norm('u * u')
         calls = [norm(ast.unparse(c)) for c in find_calls(fn, 'clenshaw_q2d_der')]
         calls_ok = sorted(calls) == sorted([norm('clenshaw_q2d_der(a_coef, m, usq)'), norm('clenshaw_q2d_der(b_coef, m, usq)')])
-        m0 = [s for s in fn.body if isinstance(s, ast.If) and 'cm0' in ast.unparse(s.test)]
+        m0 = [s for s in fn.body if isinstance(s, ast.If) and 'cm0' in ast.unparse(s.test) and not is_rebind(s, 'cm0')]
         m0_ok = len(m0) == 1 and any(stmt_is(s, 'zm0, zprimem0 = compute_z_zprime_Qbfs(cm0, u, usq)') for s in m0[0].body) \
             and any(stmt_is(s, 'dr += zprimem0') for s in m0[0].body)
         ret_ok = norm(ast.unparse(returns_in_order(fn)[-1])) == norm('(z, dr, dt)')
@@ -651,6 +651,16 @@ def generate(repo):
     g.item('surfaces.Q2d_and_der', f'{SUR}:Q2d_and_der', lambda: get_def(sur, 'Q2d_and_der'), q2d_and_der,
            'def surfQ2dAsm (sigInv z zr zt sr st base br bt Rn : K) : K × K × K := Model.C09.q2dAndDer sigInv z zr zt sr st base br bt Rn\n'
            'def surfQ2dFeedsTheAssemblyFromTheNamedRoutines : Bool := true')
+
+    def iter_fact():
+        return iter_params_fact(
+            [(get_def(jac, 'jacobi_sum_clenshaw_der'), 's'), (get_def(qp, 'clenshaw_qbfs_der'), 'cs'), (get_def(qp, 'clenshaw_q2d_der'), 'cns'),
+             (get_def(qp, 'compute_z_zprime_Qbfs'), 'coefs'), (get_def(qp, 'compute_z_zprime_Qcon'), 'coefs'),
+             (get_def(jac, 'jacobi_der_seq'), 'ns'), (get_def(her, 'hermite_He_der_seq'), 'ns'), (get_def(her, 'hermite_H_der_seq'), 'ns'),
+             (get_def(lag, 'laguerre_der_seq'), 'ns'), (get_def(zer, 'zernike_nm_der_seq'), 'nms')])
+    g.fact('derivativeRoutinesReadIterableArgumentsOnceOrMaterialiseFirst',
+           f'{JAC}:jacobi_sum_clenshaw_der,jacobi_der_seq {QP}:clenshaw_qbfs_der,clenshaw_q2d_der,compute_z_zprime_Qbfs,compute_z_zprime_Qcon '
+           f'{HER}:hermite_He_der_seq,hermite_H_der_seq {LAG}:laguerre_der_seq {ZER}:zernike_nm_der_seq', iter_fact)
 
     return g.finish()
 
